@@ -1,0 +1,36 @@
+// Copyright 2022-2026 Sauce Labs Inc., all rights reserved.
+//
+// This Source Code Form is subject to the terms of the Mozilla Public
+// License, v. 2.0. If a copy of the MPL was not distributed with this
+// file, You can obtain one at https://mozilla.org/MPL/2.0/.
+
+//go:build verif
+
+package pac
+
+import (
+	"context"
+	"net"
+
+	"github.com/dop251/goja"
+)
+
+// Verification hooks (build tag verif, add-only): resolver oracles of the
+// package's own tests made settable from outside the package, and direct
+// evaluation of an expression in the resolver's VM.
+
+// VerifSetLookupIP replaces DNS lookups made by dnsResolve and dnsResolveEx.
+func (c *ProxyResolverConfig) VerifSetLookupIP(f func(ctx context.Context, network, host string) ([]net.IP, error)) {
+	c.testingLookupIP = f
+}
+
+// VerifSetMyIPAddress replaces the interface scan of myIpAddress (v4) and myIpAddressEx (ex).
+func (c *ProxyResolverConfig) VerifSetMyIPAddress(v4, ex []net.IP) {
+	c.testingMyIPAddress = v4
+	c.testingMyIPAddressEx = ex
+}
+
+// VerifEval evaluates a script in the resolver's VM.
+func (pr *ProxyResolver) VerifEval(script string) (goja.Value, error) {
+	return pr.vm.RunString(script)
+}
